@@ -2,12 +2,14 @@
 """C13 -- RTL testbench results do not depend on the power-on state.
 proof:  Properties_C13.v over TbModel.v (hextb.cpp's clock/reset/system-call loop driving the generated RTL semantics from an
         arbitrary power-on state, including the four hidden previous-clock/previous-reset copies of Verilator's triggers).
-tie:    hextb.cpp's own load()/run() linked into harness/tb_harness.cpp with a planted power-on state (registers, memory
-        outside the image, adversarial fills) on a Verilated `hex` built from the working tree; the hextb executable under
-        +verilator+seed+<n>.
+tie:    hextb.cpp's own load()/run() linked into harness/tb_harness.cpp with a planted power-on state (registers, hidden
+        trigger copies, adversarial memory contents planted BEFORE load()) on a Verilated `hex` built from the working tree;
+        the hextb executable under +verilator+seed+<n>.
 oracle: for a fixed binary and input: console output, input consumed and exit status are the same for every seed and
-        every planted state and equal hexsim's; at the first post-reset fetch the registers are zero and the image is intact."""
-import os, sys, glob, struct
+        every planted state (for EVERY shipped/toolchain binary that terminates, whatever it reads) and equal hexsim's for
+        the well-behaved ones; at the first post-reset fetch the registers are zero, the image is intact and every word
+        outside the image is zero (load() clears the memory)."""
+import os, sys, glob, struct, json
 sys.path.insert(0, os.path.dirname(os.path.abspath(__file__)))
 import vlib, tbcommon, gen_rtl
 from vlib import Check, run3
@@ -136,14 +138,14 @@ def model_correspondence(ck, d, tbh, progs):
                 real = model_outcome(parse_h(o))
                 rc, o, e = run3([tbh, b, '1', '0', 'probe=1'] + desc.split() + hid.split(), cwd=d, stdin=open(ip, 'rb'), timeout=120)
                 p = parse_h(o).get('probe') or {}
-                realp = (p.get('pc'), p.get('areg'), p.get('breg'), p.get('oreg'), p.get('image_intact'))
+                realp = (p.get('pc'), p.get('areg'), p.get('breg'), p.get('oreg'), p.get('image_intact'), p.get('rest_zero'))
                 stats['real_runs'] += 2
                 rc, o, e = run3([hv, 'tbrun', b, 'current', '9000', '0'] + desc.split() + ['h=%d' % h], cwd=d, stdin=open(ip, 'rb'), timeout=300)
                 r = parse_m(o)
                 model = model_outcome(r)
                 rc, o, e = run3([hv, 'tbrun', b, 'current', '9000', '4'] + desc.split() + ['h=%d' % h], cwd=d, stdin=open(ip, 'rb'), timeout=300)
                 st = parse_m(o).get('state') or {}
-                modelp = (st.get('pc'), st.get('areg'), st.get('breg'), st.get('oreg'), st.get('image_intact'))
+                modelp = (st.get('pc'), st.get('areg'), st.get('breg'), st.get('oreg'), st.get('image_intact'), st.get('rest_zero'))
                 stats['model_runs'] += 2
                 seen.add(real)
                 if r.get('end') in ('ub', 'nofuel'):
@@ -193,7 +195,7 @@ def main():
     ck.cov['trusted_base'] = ['Coq 8.16.1 kernel + VM', 'TbModel.v hand model of hextb.cpp run()/handleSyscall()/load(), tied by this run',
                               'generated RTL semantics (tools/vl2coq.py) and the clocking/first-eval semantics of RtlSem.v', 'Verilator 5.006 (the Verilated model is the implementation under test)',
                               'harness/tb_harness.cpp (plants state through --public-flat-rw, calls hextb.cpp\'s own load/run)']
-    ck.assumptions = ['binaries whose first instruction is a system call are ordinary judged inputs since the repair of hextb.cpp (known_findings.json: fixed, kind first-instruction-svc); the READ clause of well_behaved is the known finding read-overwrites-own-svc (exhibited by ./check C03 and ./check C06)',
+    ck.assumptions = ['binaries whose first instruction is a system call are ordinary judged inputs since the repair of hextb.cpp (known_findings.json: fixed, kind first-instruction-svc); so are binaries that read words they never wrote, since load() clears the memory (fixed, kind power-on / how memory: tests/asm/hello_procedure.S); the READ clause of well_behaved is the known finding read-overwrites-own-svc (exhibited by ./check C03 and ./check C06)',
                       'power-on states are enumerated (seeds + planted adversarial states + fills), not proved exhaustively on the Verilated model; the theorem quantifies over all of them on the model']
     status = gen_rtl.generate_all()          # TbProofs is about the design regenerated from the working tree
     if status.get('hex'):
@@ -208,7 +210,9 @@ def main():
         ck.finish()
     d = vlib.scratch()
     rng = ck.rng
-    progs = compile_programs(ck, d, ck.thorough())
+    # --replay <file>: the binary and input of a recorded finding, under seeds, memory contents and its recorded planted state
+    replay = json.load(open(ck.replay_arg)) if ck.replay_arg else None
+    progs = compile_programs(ck, d, ck.thorough()) if replay is None else []
     nseeds = 40 if not ck.thorough() else 4000
     nplant = 24 if not ck.thorough() else 1500
     nbad = 0
@@ -231,12 +235,14 @@ def main():
             bad = None
             if probe:
                 p = r.get('probe')
-                if not p or p['pc'] != '0' or p['areg'] != '0' or p['breg'] != '0' or p['oreg'] != '0' or p['image_intact'] != '1':
+                if not p or p['pc'] != '0' or p['areg'] != '0' or p['breg'] != '0' or p['oreg'] != '0' or p['image_intact'] != '1' or p.get('rest_zero') != '1':
                     bad = 'state at the first post-reset fetch is not canonical: %s' % p
                 elif r.get('out') or r.get('consumed') or 'throw' in r:
                     bad = 'a system call was serviced before reset was released: out=%r consumed=%s %s' % (r.get('out'), r.get('consumed'), r.get('throw', ''))
             else:
-                if 'throw' in r or r.get('rc') != ref_rc or r.get('out') != ref_out or r.get('consumed', 0) > len(inp):
+                if r.get('rc') is None and 'throw' not in r:
+                    bad = 'hextb.cpp run() did not return (the process died, e.g. a system-call shim indexing outside the memory, or hit the time limit); reference run: exit %d, output %r' % (ref_rc, ref_out[:30])
+                elif 'throw' in r or r.get('rc') != ref_rc or r.get('out') != ref_out or r.get('consumed', 0) > len(inp):
                     bad = 'result differs from the reference run (exit %d, output %r): got exit %s output %r %s' % (ref_rc, ref_out[:30], r.get('rc'), (r.get('out') or b'')[:30], r.get('throw', ''))
             if bad:
                 nbad += 1
@@ -269,14 +275,19 @@ def main():
         # two of the reset copies
         hidden = ['pclk=%d mclk=%d prst=%d mrst=%d' % (pc_, mc_, pr_, mr_) for pc_ in (0, 1) for mc_ in (0, 1) for pr_, mr_ in ((0, 0), (1, 1))]
         for desc0 in plants[:nplant]:
-            for hid in (hidden if ck.thorough() else rng.sample(hidden, 4)):
+            # hextb as CMake builds it (no --public-flat-rw) has ONE trigger pair taken from the top-level inputs: at the first eval the
+            # copies equal the inputs (1, 1), no edge is seen at time 1 and the power-on registers survive until the time-3 edge:
+            # that combination is always among the planted ones
+            real_tb = 'pclk=1 mclk=1 prst=1 mrst=1'
+            for hid in (hidden if ck.thorough() else [real_tb] + rng.sample([h_ for h_ in hidden if h_ != real_tb], 3)):
                 desc = desc0 + ' ' + hid
-                seed = 1
+                seed = rng.randrange(1, 65)          # everything that is not planted (any further flop of the design) is randomised by the seed
                 rc, o, e = run3([tbh, b, str(seed), '400000'] + desc.split(), cwd=d, stdin=open(ip, 'rb'), timeout=120)
                 judge('planted', 'seed=%d %s' % (seed, desc), parse_h(o))
                 rc, o, e = run3([tbh, b, str(seed), '0', 'probe=1'] + desc.split(), cwd=d, stdin=open(ip, 'rb'), timeout=120)
                 judge('probe', 'seed=%d %s probe' % (seed, desc), parse_h(o), probe=True)
-        # fills: every word outside the image decodes as SVC / STAI / STAM whatever the random pc is
+        # power-on memory contents (planted before load(), which must clear them): every word outside the image would decode as
+        # SVC / STAI / STAM whatever the random pc is
         for fill in (0xD3, 0x80, 0x82, 0x20, 0xA5, 0xFF):
             for seed in (1, 2, 3, 4):
                 for extra in ('', 'areg=0', 'areg=1 breg=0', 'breg=0 areg=305419896'):
@@ -308,25 +319,31 @@ def main():
         if rc == 0:
             allbins.append(('asm/' + aname, os.path.join(sd, 'p.bin')))
     nall = 0
-    if len(allbins) < 20:
+    sweep_inputs = (b'', b'7a\n')
+    extra_descs = []
+    if replay is not None:
+        rb = os.path.join(d, 'replay.bin')
+        if replay.get('binary_hex'):
+            open(rb, 'wb').write(bytes.fromhex(replay['binary_hex']))
+        else:
+            rb = dict(allbins).get(replay.get('program'), rb)
+        allbins = [(replay.get('program', 'replay'), rb)]
+        sweep_inputs = (bytes(replay.get('input', [])),)
+        if replay.get('power_on') and not replay['power_on'].startswith('+verilator'):
+            extra_descs = [' '.join(t for t in replay['power_on'].split() if '=' in t and not t.startswith('seed='))]
+    elif len(allbins) < 20:
         ck.broken.append('only %d shipped/toolchain binaries could be built for the seed sweep (expected >= 20)' % len(allbins))
     for name, b in allbins:
         img = open(b, 'rb').read()
-        for inp in (b'', b'7a\n'):
+        for inp in sweep_inputs:
             ip = os.path.join(d, 'allin')
             open(ip, 'wb').write(inp)
             budget = '60000' if not ck.thorough() else '1500000'
             rc, o, e = run3([hextb, b, '--max-cycles', budget, '+verilator+seed+1'], cwd=d, stdin=open(ip, 'rb'), timeout=300)
-            rc2, o2, e2 = run3([tbh, b, '1', budget], cwd=d, stdin=open(ip, 'rb'), timeout=300)
-            h1 = parse_h(o2)
-            if h1.get('rc') is None or 'throw' in h1:
-                pass
-            # terminated (not cut by the cycle budget)?  the harness tells: run() returned through EXIT iff consumed/out lines are there and
-            # the same run with twice the budget gives the same result; cheap test: the executable's output for two budgets
+            # terminated (not cut by the cycle budget)?  the same run with twice the budget gives the same result
             rcb, ob, eb = run3([hextb, b, '--max-cycles', str(int(budget) * 2), '+verilator+seed+1'], cwd=d, stdin=open(ip, 'rb'), timeout=300)
             if (rc, o) != (rcb, ob):
                 continue          # still running at the budget: not a terminating run within what is explored
-            results = {('seed1', rc & 0xff, strip(o))}
             descs = {}
             for s_ in ((2, 3, 4, 5) if not ck.thorough() else range(2, 40)):
                 r_, o_, e_ = run3([hextb, b, '--max-cycles', budget, '+verilator+seed+%d' % s_], cwd=d, stdin=open(ip, 'rb'), timeout=300)
@@ -335,6 +352,10 @@ def main():
                 r_, o_, e_ = run3([tbh, b, '1', budget, 'fill=0x%02x' % fill], cwd=d, stdin=open(ip, 'rb'), timeout=300)
                 hh = parse_h(o_)
                 descs['fill=0x%02x' % fill] = ((hh.get('rc') if hh.get('rc') is not None else -1), hh.get('out') if 'throw' not in hh else b'THROW')
+            for xd in extra_descs:
+                r_, o_, e_ = run3([tbh, b, '1', budget] + xd.split(), cwd=d, stdin=open(ip, 'rb'), timeout=300)
+                hh = parse_h(o_)
+                descs[xd] = ((hh.get('rc') if hh.get('rc') is not None else -1), hh.get('out') if 'throw' not in hh else b'THROW')
             ck.cov['evaluations'] += 1
             nall += 1
             distinct.add((name, inp))
@@ -351,7 +372,7 @@ def main():
     ck.cov['all_binaries_seed_sweep'] = {'binaries': len(allbins), 'terminating_runs_judged': nall}
     # ---- hand-written shapes (consecutive system calls; first instruction a system call -- repaired, a difference is a violation):
     # Verilator seeds through the real executable against hexsim's result
-    extras = extra_programs(ck, d)
+    extras = extra_programs(ck, d) if replay is None else []
     for name, b, inp in extras:
         ip = os.path.join(d, 'xin')
         open(ip, 'wb').write(inp)
@@ -370,13 +391,13 @@ def main():
                     ck.violation('hextb on %s with +verilator+seed+%d: exit %d output %r, hexsim: exit %d output %r' % (name, s_, rc & 0xff, o[:30], ref_rc & 0xff, ref_out[:30]),
                                  {'program': name, 'binary_hex': img.hex(), 'input': list(inp), 'power_on': '+verilator+seed+%d' % s_}, tags={'kind': kind, 'how': 'seed'})
     # ---- tie for the model: extracted TbModel.run (hextb.cpp's loop over the generated RTL) vs hextb.cpp's own run() in the harness
-    corr = model_correspondence(ck, d, tbh, [p for p in progs if p[0] in ('exit7', 'echo', 'sum')] + extras)
+    corr = model_correspondence(ck, d, tbh, [p for p in progs if p[0] in ('exit7', 'echo', 'sum')] + extras) if replay is None else {}
     ck.cov['model_correspondence'] = corr
     floor = 1200 if not ck.thorough() else 20000
     if not ck.replay_arg and (len(progs) < 5 or ck.cov['evaluations'] < floor):
         ck.broken.append('only %d programs / %d runs were judged (expected at least 5 / %d): the check would pass without having looked' % (len(progs), ck.cov['evaluations'], floor))
     ck.cov['distinct_nontrivial'] = len(distinct)
-    ck.cov['rule'] = 'power-on states = Verilator seeds (real executable) + planted register states at/just before every SVC and store byte of the image + memory fills that make every non-image byte an SVC/store; x toolchain binaries; distinct by (program, state)'
+    ck.cov['rule'] = 'power-on states = Verilator seeds (real executable) + planted register states at/just before every SVC and store byte of the image + power-on memory contents that make every non-image byte an SVC/store + every shipped tests/asm and tests/x binary under seeds and memory contents; distinct by (program, state)'
     ck.cov['input_distribution'] = dist
     ck.log('programs %d, runs %d (%s), differing %d' % (len(progs), ck.cov['evaluations'], dist, nbad))
     ck.finish()
